@@ -49,12 +49,15 @@ CLAIMED = {
         technique="exhaustive table of derived constructors and infix forms x calling conventions x arities, each "
                   "evaluated under every interpretation of fresh operands (all BV values of the width, all Bool tuples) "
                   "against a direct Python definition of the named function",
-        text="Each derived constructor / infix operator / FNode method is applied to fresh symbols or Python literals "
-             "in a fresh infix-enabled environment; the formula pySMT builds is evaluated by the reference semantics "
-             "under every interpretation and compared with an independently written Python definition of the function "
-             "the name denotes (exhaustive for BV widths 1-3, thorough 1-5, and Bool; Int -3..3, six Reals).",
+        text="Each derived constructor / infix operator / FNode method is applied to fresh symbols, Python literals, "
+             "constant formulas, a table of compound operand shapes (n-ary products with -1 in each position, sums, "
+             "differences, negations) and the same formula at two argument positions, in a fresh infix-enabled "
+             "environment; the formula pySMT builds is evaluated by the reference semantics under every interpretation "
+             "and compared with an independently written Python definition of the function the name denotes "
+             "(exhaustive for BV widths 1-3, thorough 1-5, and Bool; Int -3..3, six Reals; Min/Max up to 12, thorough 17, "
+             "arguments over two- and three-value pools).",
         note="Trusted: the per-function definitions in mc/props/c06.py and mc/core/refsem.py. Int/Real arguments are "
-             "confined to the pools; operands are symbols or literals, not compound terms.",
+             "confined to the pools; compound operands are the listed shapes, not arbitrary terms.",
         design="§3 C06"),
     "C04": dict(
         category="model_checking", engine="explorer",
@@ -88,10 +91,11 @@ CLAIMED = {
         category="exploration",
         technique="bounded-exhaustive enumeration of formulas x four export routes, each text read by an independent "
                   "strict SMT-LIB reader/sort-checker and evaluated under every interpretation",
-        text="Every term of 16 (thorough 18) profiles - all operators incl. indexed ones, negative/rational/huge "
-             "constants, strings with quotes, constant arrays, nested/shadowing quantifiers, symbols whose names need "
-             "quoting or equal the printer's let names, custom sorts of arity 0 and 1 - is exported as term (tree, DAG) "
-             "and as script (tree, DAG); smtref checks the text is well-formed, every sort and symbol declared exactly "
+        text="Every term of 18 (thorough 20) profiles - all operators incl. indexed ones, negative/rational/huge "
+             "constants, strings with quotes, constant arrays, nested/shadowing quantifiers, symbols, functions and bound "
+             "variables whose names need quoting or equal the printer's let names, custom sorts of arity 0 and 1 - is "
+             "exported as term (tree, DAG) and as script (tree, DAG), and 10k scripts with two or three assertions are "
+             "serialised by one printer; smtref checks the text is well-formed, every sort and symbol declared exactly "
              "once before use and well-sorted, then its value under every interpretation must equal the formula's.",
         note="Trusted: mc/core/smtref.py (independent reading of SMT-LIB 2.6; accepted deviations in its docstring) "
              "and refsem. POW and undeclarable names are excluded as the statement says; a clean "
@@ -205,7 +209,9 @@ CLAIMED = {
         text="For every configuration (member behaviours in {answers with first/last model, unknown, raises, exits "
              "silently}^n, n=2 unbounded, n=3-4 under a preemption bound; six caller scripts; exit_on_exception; "
              "sat/unsat) every schedule is executed on the real code; each must return the agreed verdict, a model "
-             "that satisfies the assertions, or - if every member fails - an error, never a deadlock.",
+             "that satisfies the assertions, or - if every member fails - an error, never a deadlock. Further configurations: "
+             "members failing in their constructor / on assertion / on release, solve with assumptions, a query on which "
+             "every member fails after a successful one followed by get_model, one solver listed twice with options.",
         note="Processes are scheduler-controlled threads; kill is synchronous at IPC granularity; objects crossing "
              "queues/pipes are pickled. Silent death of every member is a known finding (needs liveness polling).",
         design="§3 C19"),
@@ -213,8 +219,9 @@ CLAIMED = {
         category="exploration", engine="workmon",
         technique="exhaustive grid operation x nestable operator x family (chain/diamond) x size with an external "
                   "work monitor counting walker callbacks, created nodes and python-level calls per distinct node",
-        text="20 operations x 41 (thorough 45) operators/argument positions x chains and diamonds at n=50/100/200, "
-             "diamonds of height 60 and chains of depth 5000-20000 under the default recursion limit: at most one "
+        text="21 operations x 49 (thorough 55) operators/argument positions x chains and diamonds at n=50/100/200, "
+             "diamonds of height 60, chains - and for five operators also diamonds (memory-copy store chains, shared "
+             "sums) - of depth 5000-20000 under the default recursion limit: at most one "
              "callback per (walker, node), counters linear in the number of distinct nodes, doubling n at most doubles "
              "the work, no RecursionError. No wall-clock time enters a verdict.",
         note="Trusted: mc/core/workmon.py (monitor installed from outside) and the per-operation constants in "
@@ -224,10 +231,10 @@ CLAIMED = {
         category="model_checking", engine="explorer",
         technique="exhaustive enumeration of API histories up to a length bound on a fresh real Environment, each "
                   "followed by a complete probe set compared with an untouched environment (differential oracle)",
-        text="All histories of length <= 2 over ~130 events (thorough: ~230 events, and length 3 over a reduced "
+        text="All histories of length <= 2 over ~110 events (thorough: ~310 events, and length 3 over a reduced "
              "alphabet): build, type query, simplify, substitute with 3 maps, analyses, logic/theory (incl. mutating "
              "the returned Theory), six size measures, printing, parsing, nnf/cnf/prenex/aig, 19 constant spellings, "
-             "FreshSymbol. After each history ~330 probes are run (in both orders where value-keyed caches matter) and "
+             "FreshSymbol. After each history ~380 probes are run (in both orders where value-keyed caches matter) and "
              "compared with a fresh environment up to commutative order and fresh-symbol numbering; repeating a call "
              "must return the same object.",
         note="No state merging (the state is the history). Trusted: the canonical forms in mc/core/histworld.py.",
